@@ -262,8 +262,16 @@ def _run(case, NXCBM, NetworkXADMGraph):
             variants.setdefault(nid, [])
             if (c, _other(p)) not in variants[nid]:
                 variants[nid].append((c, _other(p)))
-            if p.get(S.P_LD) not in S.ABSENT or p.get(S.P_CD) not in S.ABSENT:
-                speakers.setdefault(nid, []).append(g)
+            # the code's own rule ("only one aggregate can speak for a resource") is checked per delegation
+            # property: one model may delegate the labels of a shared element and another its capacities
+            for kind_prop in (S.P_LD, S.P_CD):
+                if p.get(kind_prop) not in S.ABSENT:
+                    speakers.setdefault((nid, kind_prop), []).append(g)
+    split = {nid for (nid, _k) in speakers} and any(
+        speakers.get((nid, S.P_LD)) and speakers.get((nid, S.P_CD)) and
+        set(speakers[(nid, S.P_LD)]) != set(speakers[(nid, S.P_CD)]) for (nid, _k) in speakers)
+    if split:
+        labels.append("split-speakers")
     if any(len(s) > 1 for s in speakers.values()):
         labels.append("multi-speaker")
         return done()
@@ -276,7 +284,7 @@ def _run(case, NXCBM, NetworkXADMGraph):
         labels.append("models>=2")
     if shared:
         labels.append("shared-nodes")
-    if any(nid in speakers for nid in shared):
+    if any((nid, k) in speakers for nid in shared for k in (S.P_LD, S.P_CD)):
         labels.append("shared-delegated")
     if any(len(h) > 2 for h in holders.values()):
         labels.append("shared-by-3+")
